@@ -1,5 +1,6 @@
 """C14 — run_forever always terminates; on_close fires once, last, with the close reason."""
 import itertools
+from fractions import Fraction
 
 import bvsym as sx
 from bvsym import core
@@ -25,16 +26,16 @@ ENDINGS = ("reconnect-then-close", "close0", "close2", "close-reason", "eof", "r
            "close-in-open", "close-in-message", "close-in-ping", "close-in-data", "kbd-in-message")
 
 
-def _traffic(n):
+def _traffic(n, tag=""):
     out = []
     for i in range(n):
-        out.append((1, server_frame(1, 2, sx.sym_bytes("t%d" % i, 1))))
+        out.append((1, server_frame(1, 2, sx.sym_bytes("t%s%d" % (tag, i), 1))))
     return out
 
 
 def _spec_for(ending, ntraffic, tag=""):
     """server spec, run_forever kwargs, hooks, connect outcomes, expected (close args, error reported)"""
-    script = _traffic(ntraffic)
+    script = _traffic(ntraffic, tag)
     rf, hooks, outcomes, raise_in, raise_exc = {}, {}, {}, None, None
     spec = {"script": script}
     exp_args, exp_err = (None, None), True
@@ -131,8 +132,13 @@ def _eq(a, b):
     return a == b
 
 
-def t_end(ending, ntraffic, second=None, tls=False):
+def t_end(ending, ntraffic, second=None, tls=False, ping=False):
     spec, rf, hooks, outcomes, raise_in, raise_exc, exp_args, exp_err = _spec_for(ending, ntraffic)
+    if ping and "ping_interval" not in rf:
+        # a healthy keepalive runs next to the scenario (the server answers every ping): one more thread to stop at the end
+        rf = dict(rf, ping_interval=Fraction(3, 2), ping_timeout=1)
+        if "on_frame_bytes" not in spec:
+            spec["on_frame_bytes"] = _answer_ping
     specs = [spec]
     if "next" in spec:
         specs.append(spec.pop("next"))
@@ -237,8 +243,16 @@ def obligations(tier):
         for n in ((0, 1, 2, 3) if thorough else (0, 1, 2)):
             ends.append(dict(ending=e, ntraffic=n))
         ends.append(dict(ending=e, ntraffic=1, tls=True))
-    seconds = [dict(ending=e, ntraffic=0, second=s) for e in ("close0", "eof", "proto", "refused", "close-in-message", "pingtimeout", "rejected")
-               for s in ("close0", "eof", "close2") if thorough or s != "close2" or e in ("eof", "close0")]
+        if e not in ("pingtimeout", "reconnect-then-close"):
+            ends.append(dict(ending=e, ntraffic=2, ping=True))
+            if thorough:
+                ends.append(dict(ending=e, ntraffic=3, ping=True, tls=True))
+    if thorough:
+        seconds = [dict(ending=e, ntraffic=n, second=s) for e in ENDINGS if e not in ("kbd-in-message", "reconnect-then-close") for n in (0, 1)
+                   for s in ENDINGS if s not in ("kbd-in-message", "reconnect-then-close")]
+    else:
+        seconds = [dict(ending=e, ntraffic=0, second=s) for e in ("close0", "eof", "proto", "refused", "close-in-message", "pingtimeout", "rejected")
+                   for s in ("close0", "eof", "close2") if s != "close2" or e in ("eof", "close0")]
     pre = [dict(ending=e, answer=a, ping=p, nyields=24 if thorough else 14) for e in ("none", "eof", "close") for a in (True, False) for p in (False, True)]
     return [
         Obligation("T-end", t_end, ends, bounds="every ending kind %s after 0..%d data frames, plain and TLS; close code symbolic over all wire-legal "
@@ -246,7 +260,7 @@ def obligations(tier):
                    must_cover=["end-" + e for e in ENDINGS], budget_s=1800, step_budget=60000,
                    kernel=["WebSocketApp.run_forever", "teardown", "read", "closed", "handleDisconnect", "_get_close_args", "WebSocketApp.close",
                            "_stop_ping_thread", "Dispatcher.read", "WebSocket.close"]),
-        Obligation("T-second", t_end, seconds, bounds="a second run_forever on the same object after each of 7 ending kinds", must_cover=["second"],
+        Obligation("T-second", t_end, seconds, bounds="a second run_forever on the same object: 7 first endings x {close frame, end of stream, close with code} (thorough: every pair of 14 ending kinds)", must_cover=["second"],
                    budget_s=1800, step_budget=60000, kernel=["WebSocketApp.run_forever"]),
         Obligation("T-preempt", t_preempt, pre, bounds="close() from a second lock-step thread released at every one of the first 14 (thorough: 24) yield points "
                    "of the loop (symbolic index); server answering the close frame or silent; with and without a ping thread",
